@@ -972,10 +972,10 @@ impl Bgi {
     }
 
     pub fn flood_fill(&mut self, x: i32, y: i32, border: u8) {
-        if !self.viewport.contains(x, y) {
+        if !self.viewport.contains(x, y) || x < 0 || y < 0 || x >= self.window.width || y >= self.window.height {
             return;
         }
-        let mut fill_lines = vec![Vec::new(); self.viewport.get_height() as usize];
+        let mut fill_lines = vec![Vec::new(); self.window.height as usize + 1];
         let mut point_stack = Vec::new();
 
         if self.screen[(y * self.window.width + x) as usize] != border {
